@@ -343,10 +343,6 @@ impl Server {
         .layer(Extension(index))
         .layer(Extension(server_config.clone()))
         .layer(Extension(settings.clone()))
-        .layer(SetResponseHeaderLayer::if_not_present(
-          header::CONTENT_SECURITY_POLICY,
-          HeaderValue::from_static("default-src 'self'"),
-        ))
         .layer(SetResponseHeaderLayer::overriding(
           header::STRICT_TRANSPORT_SECURITY,
           HeaderValue::from_static("max-age=31536000; includeSubDomains; preload"),
@@ -366,6 +362,11 @@ impl Server {
       } else {
         router
       };
+
+      let router = router.layer(SetResponseHeaderLayer::if_not_present(
+        header::CONTENT_SECURITY_POLICY,
+        HeaderValue::from_static("default-src 'self'"),
+      ));
 
       match (self.http_port(), self.https_port()) {
         (Some(http_port), None) => {
